@@ -36,6 +36,7 @@ ufn!(U1Mock::a, 4);
 ufn!(U1Mock::b, 5);
 ufn!(U1Mock::c, 6);
 ufn!(U1Mock::d, 7);
+ufn!(U2Mock::r, 8);
 
 fn leak(s: String) -> &'static str {
     Box::leak(s.into_boxed_str())
@@ -426,6 +427,54 @@ pub fn exec_event(w: &mut WorldRt, ev: &Event) -> String {
                 Caught::Msg(m) => format!("teardown\tpanic\t{}", esc(&m)),
             }
         }
+        Event::UnwindCall { i, mid, a, also, wrap, .. } => {
+            let Some(u) = w.insts.remove(i) else { return "bad-event".into() };
+            let mut others = vec![];
+            for j in also {
+                if let Some(o) = w.insts.remove(j) {
+                    others.push(o);
+                }
+            }
+            let _ = take_log();
+            let (mid, a, wrap) = (*mid, *a, *wrap);
+            // everything below is dropped while the thread unwinds from the panic raised inside
+            let r = catch(move || {
+                let _others = others;
+                // the holders stay alive until the panic below unwinds through this frame
+                let boxed: Option<Box<Unimock>>;
+                let rc: Option<(std::rc::Rc<Unimock>, std::rc::Rc<Unimock>)>;
+                let arc: Option<std::sync::Arc<Unimock>>;
+                let plain: Option<Unimock>;
+                match wrap {
+                    1 => { boxed = Some(Box::new(u)); rc = None; arc = None; plain = None; }
+                    2 => { let r = std::rc::Rc::new(u); rc = Some((r.clone(), r)); boxed = None; arc = None; plain = None; }
+                    3 => { arc = Some(std::sync::Arc::new(u)); boxed = None; rc = None; plain = None; }
+                    _ => { plain = Some(u); boxed = None; rc = None; arc = None; }
+                }
+                let target: &Unimock = if let Some(b) = &boxed { b } else if let Some((r, _)) = &rc { r } else if let Some(a) = &arc { a } else { plain.as_ref().unwrap() };
+                let v = call_method(target, mid, a);
+                let _ = v;
+                user_panic()
+            });
+            let log = take_log().join(",");
+            match r {
+                Caught::Ok(()) => "unwound\tno-panic".into(),
+                Caught::User => format!("unwound\tuser\t\t{log}"),
+                Caught::Msg(m) => format!("unwound\tpanic\t{}\t{log}", esc(&m)),
+            }
+        }
+        Event::Consume { i, a, .. } => {
+            let Some(u) = w.insts.remove(i) else { return "bad-event".into() };
+            let _ = take_log();
+            let a = *a;
+            let r = catch(move || U2::consume(u, a));
+            let log = take_log().join(",");
+            match r {
+                Caught::Ok(v) => format!("call\tret\t{v}\t{log}"),
+                Caught::User => format!("call\tuser-panic\t\t{log}"),
+                Caught::Msg(m) => format!("call\tpanic\t{}\t{log}", esc(&m)),
+            }
+        }
         Event::Verify { i, .. } => {
             let Some(u) = w.insts.remove(i) else { return "bad-event".into() };
             match catch(move || u.verify()) {
@@ -467,6 +516,8 @@ fn event_thread(ev: &Event) -> usize {
         | Event::Drop { t, .. }
         | Event::Verify { t, .. }
         | Event::NoVerify { t, .. }
+        | Event::UnwindCall { t, .. }
+        | Event::Consume { t, .. }
         | Event::Report { t, .. } => *t,
     }
 }
